@@ -487,7 +487,14 @@ class Parser:
                         self.__near(text),
                     )
                     raise ParseError(msg)
-            if self.__expected_brackets:
+            if self.__cstate is not None and self.__expected is None:
+                # the last command has not been terminated
+                ctype = self.__curcommand.get_type()
+                condition = ctype == "action" or (
+                    ctype == "control" and not self.__curcommand.accept_children
+                )
+                self.__set_expected("semicolon" if condition else "left_cbracket")
+            elif self.__expected_brackets:
                 self.__set_expected(self.__expected_brackets[-1][0])
             if self.__expected is not None:
                 raise ParseError(
